@@ -16,7 +16,7 @@ type KV struct{ K, V []byte }
 // (works whether or not the node has the database open).
 func (d *Disk) DumpStore(path string) ([]KV, error) {
 	cl := d.Clone()
-	db, err := leveldb.Open(cl.Storage(path), &opt.Options{ReadOnly: true})
+	db, err := leveldb.Open(cl.Storage(path), &opt.Options{ReadOnly: true, WriteBuffer: 64 << 10})
 	if err != nil {
 		return nil, err
 	}
